@@ -257,6 +257,28 @@ def wideratio_compound(mode: str, version: int, thorough: bool = False):
               "m2": lambda: ("If", e.u(2), ("Int", 1), ("Int", M))}
         out.append(("op:WideRatio:order:%s" % nm,
                     prog(mode, ("Seq", e.tag(60), e.observe_u(("WideRatio", tuple(tr[k]() for k in ns), tuple(tr[k]() for k in ds))))), {}))
+    # factors read from variables (the slot optimiser rewrites exactly this traffic from version 9 on)
+    for nm, pre, ns, ds in (
+            ("load-after-arm", [("Store", "x", "v1"), ("If", "c", ("Un", "Pop", ("Load", "x"))), ("Store", "x", "v2")], [("Load", "x")], ["3", "5"]),
+            ("ratio-in-arm-then-reuse", [("Store", "x", "v1"), ("If", "c", ("Store", "y", ("WideRatio", (("Load", "x"),), (("Int", 3), ("Int", 5)))), ("Store", "y", ("Int", 1))),
+                                         ("Store", "x", "v2")], [("Load", "x"), ("Load", "y")], ["5", "3"]),
+            ("reuse-first-of-two", [("Store", "x", "v1"), ("If", "c", ("Un", "Pop", ("Load", "x"))), ("Store", "x", "v2")], [("Load", "x"), "3"], ["5", "1"]),
+            ("load-twice", [("Store", "x", "v1")], [("Load", "x"), ("Load", "x")], ["3", "1"]),
+            ("store-in-factor", [("Store", "x", "v1")], [("Seq", ("Store", "x", "v2"), ("Load", "x")), "3"], [("Load", "x"), "1"]),
+            ("two-variables", [("Store", "x", "v1"), ("Store", "y", "v2")], [("Load", "y"), ("Load", "x")], [("Load", "y"), "3"])):
+        e = Env(mode, version)
+        tr = {"3": ("Int", 3), "5": ("Int", 5), "1": ("Int", 1), "c": e.u(0), "v1": ("If", e.u(1), ("Int", M), ("Int", 7)), "v2": ("If", e.u(2), ("Int", 9), ("Int", M - 1))}
+
+        def sub(t):
+            if isinstance(t, str):
+                return tr.get(t, t)
+            if isinstance(t, tuple):
+                return tuple(sub(c) if (isinstance(c, tuple) or (isinstance(c, str) and c in tr and i > 0 and t[0] != "Load" and not (t[0] == "Store" and i == 1))) else c
+                             for i, c in enumerate(t))
+            return t
+        out.append(("op:WideRatio:vars:%s" % nm,
+                    prog(mode, ("Seq", e.tag(60)) + tuple(sub(p) for p in pre) + (e.observe_u(("WideRatio", tuple(sub(k) for k in ns), tuple(sub(k) for k in ds))),),
+                         {"x": {"t": "u"}, "y": {"t": "u"}}), {}))
     # one fully symbolic factor among small constants (wide arithmetic with one unknown; ~1 min each)
     if not thorough:
         return out
